@@ -370,8 +370,6 @@ Section Main.
     - (* FEnumLit *) simpl. destruct (py_in v vs); reflexivity.
     - (* FEnumCls *) simpl. destruct v; simpl; try reflexivity.
       + destruct (alist_get ms s); reflexivity.
-      + destruct (forallb py_hashable l); reflexivity.
-      + destruct frozen; reflexivity.
       + destruct (pystr_eqb cls c && alist_has ms name); reflexivity.
     - (* FSeqAny *) seq_prelude k v l. reflexivity.
     - (* FSeqEach *) cbn [dom] in Hd. seq_prelude k v l.
